@@ -133,7 +133,8 @@ def split_gaps(case):
 def _localize(naive, zone):
     if zone == "tzutc":
         return naive.tz_localize("UTC").tz_convert(datetime.timezone.utc)
-    return naive.tz_localize(zone)
+    # zones whose clock changes AT local midnight: the day starts at its first existing instant
+    return naive.tz_localize(zone, nonexistent="shift_forward", ambiguous=True)
 
 
 def day_index(start, n, zone):
@@ -512,6 +513,15 @@ def dst_cases(tier):
                             for what in (["none"] if m == 0 else (["temp"] if kind == "billing" else ["usage", "temp", "same"])):
                                 out.append({"fam": "dst", "cls": kind, "role": role, "fuel": "electric", "entry": entry,
                                             "feed": feed, "N": n, "m": m, "what": what, "place": "interior", "zone": zone})
+    # zones whose clock changes at local midnight (a day without a 00:00 / with two): well-formed input must be accepted
+    for zone in ["America/Santiago", "America/Havana"] if tier == "quick" else ["America/Santiago", "America/Havana", "Asia/Beirut", "Africa/Cairo"]:
+        for kind in CLASSES:
+            for role in ROLES:
+                for entry, feed in entry_feed_pairs(kind, "quick"):
+                    f = 365 // 10
+                    for m in (0, f - 3, f + 3):
+                        out.append({"fam": "dst", "cls": kind, "role": role, "fuel": "electric", "entry": entry, "feed": feed,
+                                    "N": 365, "m": m, "what": "none" if m == 0 else "temp", "place": "interior", "zone": zone})
     return out
 
 
